@@ -84,9 +84,11 @@ def _inputs(rng, directed=None, need_right_disp=False, small=False):
     else:
         disp = gen.interval(rng, cols, ik)
         rdisp = None
-    left = gen.make_dataset(l, disp, lm)
-    right = gen.make_dataset(r, rdisp, rm)
-    desc = {"shape": [rows, cols], "texture": tex, "left_mask": lmk, "right_mask": rmk, "interval": ik,
+    # coordinates as a ROI read carries them (first row / column not 0) in a third of the cases
+    row0, col0 = (0, 0) if rng.random() < 0.65 else (int(rng.integers(1, 40)), int(rng.integers(1, 60)))
+    left = gen.make_dataset(l, disp, lm, row0=row0, col0=col0)
+    right = gen.make_dataset(r, rdisp, rm, row0=row0, col0=col0)
+    desc = {"shape": [rows, cols], "texture": tex, "left_mask": lmk, "right_mask": rmk, "interval": ik, "origin": [row0, col0],
             "disp": [int(np.min(disp[0])), int(np.max(disp[1]))]}
     return left, right, w, desc
 
